@@ -726,6 +726,8 @@ def support(ctx, broken):
                                                    f"history shrunk to {len(small)} steps"))
     finally:
         shutil.rmtree(pq_root, ignore_errors=True)
+    # every distinct failing signature goes into the evidence (the replay file only carries the first one)
+    sup.distribution["failures_found"] = [{"sig": f.sig, "detail": f.detail[:240]} for f in sup.failures]
     return sup
 
 
